@@ -93,6 +93,8 @@ class Pass:
                     return NONNEG
                 if a == DIR and b in (NONNEG, NORM):
                     return DIR
+                if a == DIR and b == DIR:
+                    return NORM          # the ratio of two spans along the step is ordered the same way in both directions
                 return UNK
             if op in ('+', '-'):
                 if a == TIME and b == TIME and op == '-':
@@ -108,8 +110,42 @@ class Pass:
         return UNK
 
     def run(self):
+        self._roles()
         self._walk(cfront.body(self.fn))
         return self
+
+    def _roles(self):
+        """role unification: in `A - M*B` with M a direction-signed span (positions extrapolated with velocities over the
+        last step), a local X that appears as `A - X*B` with the same A and B is a span along the step as well."""
+        self.roles = {}
+        pats = {}
+        cands = []
+        for n in walk(cfront.body(self.fn)):
+            if n.get('kind') == 'BinaryOperator' and n.get('opcode') in ('+', '-'):
+                a, m = strip(n['inner'][0], casts=True), strip(n['inner'][1], casts=True)
+                if m.get('kind') == 'BinaryOperator' and m.get('opcode') == '*':
+                    for x, y in ((m['inner'][0], m['inner'][1]), (m['inner'][1], m['inner'][0])):
+                        x, y = strip(x, casts=True), strip(y, casts=True)
+                        key = (render(a), render(y))
+                        if x.get('kind') == 'MemberExpr' and x['name'] in DIR_MEMBERS:
+                            pats[key] = True
+                        elif x.get('kind') == 'DeclRefExpr' and 'double' in qtype(x):
+                            cands.append((key, x['referencedDecl']['name'], x))
+        # locals that are plain copies of a span member count as the member itself
+        copies = set()
+        for d in walk(cfront.body(self.fn)):
+            if d.get('kind') == 'VarDecl' and 'init' in d:
+                init = [c for c in d.get('inner', []) if c.get('kind') not in ('FullComment',)]
+                if init:
+                    i_ = strip(init[-1], casts=True)
+                    if i_.get('kind') == 'MemberExpr' and i_['name'] in DIR_MEMBERS:
+                        copies.add(d['name'])
+        for key, nm, x in cands:
+            if nm in copies:
+                pats[key] = True
+        for key, nm, x in cands:
+            if key in pats and nm not in copies:
+                self.roles[nm] = DIR
 
     def _walk(self, n):
         k = n.get('kind')
@@ -117,7 +153,7 @@ class Pass:
             init = [c for c in n.get('inner', []) if c.get('kind') not in ('FullComment',)]
             if init:
                 self._walk(init[-1])
-                self.env[n['name']] = self.cls(init[-1])
+                self.env[n['name']] = self.cls(init[-1]) or getattr(self, 'roles', {}).get(n['name'])
             return
         if is_assign(n):
             self._walk(n['inner'][1])
